@@ -35,6 +35,11 @@ def handle (op : String) (j : Json) : Except String Json := do
                          ("lengths", lensJ (recs.map (fun r => (firstWord r.header, r.seq.length)))),
                          ("fai", Json.str (ofB (faiText spec)))]
     pure (reply m (some s))
+  | "create_index" =>
+    -- the rows create_index returns (before they are written): also for empty / blank / blank-led headers
+    let m := Json.mkObj [("rows", Json.arr ((createIndex file).map rowJ).toArray)]
+    let s := Json.mkObj [("rows", Json.arr (spec.map rowJ).toArray)]
+    pure (reply m (some s))
   | "index_chunked" =>
     let sizes ← getNatList j "sizes"
     let chunks := (sizes.foldl (fun (acc : List Bytes × Bytes) n => (acc.1 ++ [acc.2.take n], acc.2.drop n)) ([], file)).1
